@@ -11,7 +11,7 @@ CONSTANTS
   MaxPrice = 46
   Prices <- TracePrices
   Modes = {"fresh", "catchup"}
-  Kinds = {"closed", "lost", "won", "other", "xclosed", "created"}
+  Kinds = {"closed", "lost", "won", "other", "xclosed", "created", "xowner", "xownerp", "xdseq"}
   TimeoutCfgs = {TRUE, FALSE}
 
 POSTCONDITION CAccepted
